@@ -277,6 +277,79 @@ def declaration_scope_rule(cx, rep, rid):
     rep.floor(rid, "declarations whose type parameters are pushed and popped around their conversion", n, 2)
 
 
+# ---------------------------------------------------------------------------------------------------------------------
+def registration_routes_rule(cx, rep, rid):
+    """C09.20.  A declaration can be exported in place (`export enum E {}`) or through an export list (`enum E {};
+    export { E }`): the two routes are two functions of the binder that build the same payload (a variant of the
+    export-symbol enum) and register it in the module's export namespaces.  Decided (sibling agreement): for every
+    payload variant, every function that registers it registers it in the SAME set of namespaces (the namespace is the
+    registering method, or the unit variant of a mode enum handed to it / paired with the payload).  (Found: the
+    export-list route registered an enum as a type only, so `typeof E.A` in an importer failed with `cannot resolve
+    value` although the single-file program and `export enum E` compile.)"""
+    F = cx.rs
+    trees = {g: t for g, t in _core_trees(F).items() if "/src/swc_tools/" in (F.fns[g].file or "")}
+    per_variant = {}     # variant -> {fn gid -> set(namespace tokens)}
+    for g, t in sorted(trees.items()):
+        C = Closure(t)
+        structs = [x for x in walk(t["body"]) if x["k"] == "Struct" and "::SymbolExport::" in (x.get("def") or "")]
+        if not structs:
+            continue
+        # locals bound to a payload
+        bound = {}
+        for st in walk(t["body"]):
+            if st["k"] in ("LetStmt", "Let") and st.get("init") is not None:
+                inner = [x for x in walk(st["init"]) if x["k"] == "Struct" and "::SymbolExport::" in (x.get("def") or "")]
+                if inner:
+                    for b in walk(st["pat"]):
+                        if b["k"] == "P.Binding":
+                            bound.setdefault(b.get("lid"), set()).update(x["def"].rsplit("::", 1)[-1] for x in inner)
+
+        def variants_in(e):
+            out = {x["def"].rsplit("::", 1)[-1] for x in walk(e) if x["k"] == "Struct" and "::SymbolExport::" in (x.get("def") or "")}
+            for x in walk(e):
+                if x["k"] == "Path" and x.get("res") == "local" and x.get("lid") in bound:
+                    out |= bound[x["lid"]]
+            return out
+
+        def unit_variants(e):
+            return sorted({x["def"].rsplit("::", 2)[-2] + "::" + x["def"].rsplit("::", 1)[-1] for x in walk(e)
+                           if x["k"] == "Path" and x.get("res") == "def" and x.get("defkind") in ("Ctor", "Variant") and x.get("def_local") and "SymbolExport" not in x.get("def", "")})
+        for n in walk(t["body"]):
+            if n["k"] in ("Call", "MethodCall"):
+                tg = _callee_gid(F, n)
+                if tg not in F.hir or "/src/swc_tools/" not in (F.fns[tg].file or ""):
+                    continue
+                args = ([n["recv"]] if n["k"] == "MethodCall" else []) + list(n.get("args") or [])
+                vs = set()
+                for a in args:
+                    vs |= variants_in(a)
+                if not vs:
+                    continue
+                uv = [u for a in args for u in unit_variants(a)]
+                tok = ",".join(uv) if uv else tg.rsplit("::", 1)[-1]
+                for v in vs:
+                    per_variant.setdefault(v, {}).setdefault(g, set()).add(tok)
+            if n["k"] == "Tup":
+                vs = variants_in(n)
+                uv = unit_variants(n)
+                if vs and uv:
+                    for v in vs:
+                        per_variant.setdefault(v, {}).setdefault(g, set()).add(",".join(uv))
+    n = 0
+    for v, byfn in sorted(per_variant.items()):
+        if len(byfn) < 2:
+            continue
+        n += 1
+        sets = {g: frozenset(s_) for g, s_ in byfn.items()}
+        same = len(set(sets.values())) == 1
+        f0 = F.fns[sorted(byfn)[0]]
+        rep.ob(rid, "%s/routes-agree" % v, same,
+               "the export payload %s is registered in different namespaces by different routes: %s - a declaration exported through an export list must be visible exactly where the same declaration exported in place is (`enum E {..}; export { E }` vs `export enum E {..}`: the list route registers the type side only, `typeof E.A` in an importer fails with `cannot resolve value` although the single-file program compiles)"
+               % (v, "; ".join("%s -> {%s}" % (g.rsplit("::", 1)[-1], ", ".join(sorted(s_))) for g, s_ in sorted(sets.items()))), f0.loc(),
+               sample={"payload": v, "routes": {g.rsplit("::", 1)[-1]: sorted(s_) for g, s_ in sets.items()}})
+    rep.floor(rid, "export payload variants registered by more than one route", n, 3)
+
+
 # =====================================================================================================================
 # TypeScript side
 import tsast
@@ -574,6 +647,7 @@ def verbatim_name_rule(cx, rep, rid):
 
 # ---------------------------------------------------------------------------------------------------------------------
 REGISTRY = {
+    "C09": [("C09.20", "every route that registers an export payload registers it in the same namespaces", registration_routes_rule)],
     "C07": [("C07.15", "an operator over any operand evaluates the projection of every structural family and unites them", family_dispatch_rule)],
     "C01": [("C01.27", "no answer is taken from ONE member of an intersection (loops / find over the members of AllOf)", conjunct_selection_rule)],
     "C08": [("C08.17", "the scope of a declaration's type parameters covers every part of the declaration that is converted", declaration_scope_rule),
